@@ -11,20 +11,20 @@ def spec_with_ast(f, ast):
 
 
 def spec_at(f, pos):
-    return Frame(cursor=Cursor(pos=pos, len=f.cursor.len, textstr=f.cursor.textstr, input=f.cursor.input),
+    return Frame(cursor=Cursor(pos=pos, len=f.cursor.len, textstr=f.cursor.textstr, input=f.cursor.input, _namechars=f.cursor._namechars),
                  ast=f.ast, cst=f.cst, cutseen=f.cutseen, last_node=f.last_node, alerts=f.alerts)
 
 
 def spec_merged(f0, sub):
     """`merge()`: the sub-frame's position and names are kept, its cst is spliced into f0's,
     f0's cut flag is NOT changed (a cut is contained by the frame it happened in)"""
-    return Frame(cursor=Cursor(pos=sub.cursor.pos, len=f0.cursor.len, textstr=f0.cursor.textstr, input=f0.cursor.input),
+    return Frame(cursor=Cursor(pos=sub.cursor.pos, len=f0.cursor.len, textstr=f0.cursor.textstr, input=f0.cursor.input, _namechars=f0.cursor._namechars),
                  ast=sub.ast, cst=spec_cstmerge(f0.cst, sub.cst), cutseen=f0.cutseen, last_node=sub.cst,
                  alerts=f0.alerts + sub.alerts)
 
 
 def spec_same_text(a, b):
-    return (a.cursor.len == b.cursor.len and a.cursor.textstr == b.cursor.textstr and a.cursor.input == b.cursor.input
+    return (a.cursor.len == b.cursor.len and a.cursor.textstr == b.cursor.textstr and a.cursor.input == b.cursor.input and a.cursor._namechars == b.cursor._namechars
             and 0 <= b.cursor.pos and b.cursor.pos <= b.cursor.len)
 
 
